@@ -3,7 +3,9 @@
 //! Line format (whitespace separated integers):
 //!   block multithread workers ls rs ms use_constant use_fixed use_lpc fixed_max_order order_sel(-1=BitCount)
 //!   lpc_order quant_precision window(-1=Rectangle, else f32 bits) max_parameter
-//!   entry(0 stream, 2 frame-level) channels bps rate nsamples s0 s1 ...
+//!   entry(0 stream, 2 frame-level) channels bps rate nsamples cfg_block(0 = same as block) s0 s1 ...
+//! `block` is the block-size ARGUMENT of the entry points; `cfg_block` (when non-zero) is what
+//! `config.block_size` holds instead.
 //! The code below must not depend on any optional feature of flacenc.
 
 use flacenc::bitsink::ByteSink;
@@ -23,7 +25,7 @@ fn fnv(data: &[u8]) -> u64 {
 }
 
 fn run(v: &[i64]) -> Result<String, String> {
-    if v.len() < 20 {
+    if v.len() < 21 {
         return Err("short line".into());
     }
     let mut c = config::Encoder::default();
@@ -45,11 +47,14 @@ fn run(v: &[i64]) -> Result<String, String> {
     c.subframe_coding.qlpc.window = if v[13] < 0 { config::Window::Rectangle } else { config::Window::Tukey { alpha: f32::from_bits(v[13] as u32) } };
     c.subframe_coding.prc.max_parameter = v[14] as usize;
     let (entry, channels, bps, rate, n) = (v[15], v[16] as usize, v[17] as usize, v[18] as usize, v[19] as usize);
-    if v.len() != 20 + n {
-        return Err(format!("expected {n} samples, got {}", v.len() - 20));
+    if v.len() != 21 + n {
+        return Err(format!("expected {n} samples, got {}", v.len() - 21));
     }
-    let samples: Vec<i32> = v[20..].iter().map(|x| *x as i32).collect();
+    let samples: Vec<i32> = v[21..].iter().map(|x| *x as i32).collect();
     let block = c.block_size;
+    if v[20] != 0 {
+        c.block_size = v[20] as usize;
+    }
     let cfg = c.into_verified().map_err(|(_, e)| format!("config rejected: {e}"))?;
     let stream: Stream = if entry == 0 {
         flacenc::encode_with_fixed_block_size(&cfg, MemSource::from_samples(&samples, channels, bps, rate), block).map_err(|e| format!("{e:?}"))?
